@@ -112,6 +112,28 @@ def witness_corpus(pid, sources, jobs=16):
             skipped.append(name)
         else:
             work.append(("silent", (pid, name, ov)))
+    # composed variants: a refactoring of this property followed by a breaking change this check reports -- the
+    # refactoring must not make the check blind (pairs whose hunks no longer apply are skipped silently)
+    for rd in sorted(glob.glob(os.path.join(VERIF, "refactorings", pid + "-*", "patch.diff"))):
+        o1 = udiff.apply(sources, open(rd, encoding="utf-8").read())
+        if o1 is None:
+            continue
+        src1 = dict(sources)
+        src1.update(o1)
+        for md in sorted(glob.glob(os.path.join(VERIF, "seeded", pid + "-*", "patch.diff"))):
+            try:
+                meta = json.load(open(os.path.join(os.path.dirname(md), "meta.json")))
+            except Exception:
+                continue
+            if pid not in meta.get("checks_reporting_violation", []):
+                continue
+            o2 = udiff.apply(src1, open(md, encoding="utf-8").read())
+            if o2 is None:
+                continue
+            ov = dict(o1)
+            ov.update(o2)
+            work.append(("catch", (pid, "composed:" + os.path.basename(os.path.dirname(rd)) + "+" +
+                                   os.path.basename(os.path.dirname(md)), ov)))
     results = []
     if work:
         import multiprocessing as mp
